@@ -270,6 +270,7 @@ def run_path(world, contract, ex, ctx, prefix, report):
     report.inlined |= p.inlined
     report.used_abstract |= p.used_abstract
     report.opaque = getattr(report, 'opaque', set()) | p.__dict__.get('opaque', set())
+    report.dead_exits = getattr(report, 'dead_exits', set()) | p.__dict__.get('dead_exits', set())
     report.abstracted_text.update(p.abstracted_text)
     report.cut_hit = report.cut_hit or p.cut_hit
     return p.new_prefixes
@@ -311,6 +312,8 @@ def verify_function(world, contract, discharge=True):
             if prefix not in contract.abstract and extra is not None and only_hints(extra):
                 continue        # a pure proof hint whose statement is gone: the proof simply has to do without it
             rep.undecided = 'abstraction anchor %r not found in source' % prefix
+    if rep.undecided is None and getattr(rep, 'dead_exits', None):
+        rep.undecided = 'vacuity: ' + '; '.join(sorted(rep.dead_exits))
     if discharge and rep.undecided is None:
         discharge_all(rep.obligations)
     rep.wall_s = time.time() - t0
